@@ -38,6 +38,8 @@ def main():
             continue
         try:
             tree = ast.parse(r.stdout)
+            from sa import normal
+            normal.normalise(tree)
         except SyntaxError:
             continue
         rec = {}
